@@ -705,6 +705,21 @@ func normalizePackage(repo, relDir string, p *packages.Package, imp types.Import
 			}
 			break
 		}
+		// a call in the condition of a for statement (`for s.moveOne(a, b) { n++ }`) cannot be replaced by
+		// statements where it stands: the test moves to the top of the body first, which is the same loop
+		// (`for init; ; post { if !(cond) { break }; body }`; continue still reaches post and then the test)
+		if nsrc, ok := condToBody(np, best.file, best.call, src[names[best.file]]); ok {
+			trial := map[string][]byte{}
+			for n, b := range src {
+				trial[n] = b
+			}
+			trial[names[best.file]] = nsrc
+			if _, err := checkPackage(p.PkgPath, p.Name, names, trial, imp); err == nil {
+				src[names[best.file]] = nsrc
+				res.Inlined = append(res.Inlined, fmt.Sprintf("loop test with a call of %s in %s moved to the top of the loop body", best.callee.FullName(), best.encl))
+				continue
+			}
+		}
 		calleeDecl := decls[best.callee]
 		callee, err := inline.AnalyzeCallee(func(string, ...any) {}, np.fset, np.tpkg, np.info, calleeDecl, src[names[declFile[best.callee]]])
 		var out *inline.Result
@@ -1940,5 +1955,35 @@ func substituteExprCall(np *npkg, file int, call *ast.CallExpr, callee *ast.Func
 	out.Write(text)
 	out.WriteString(")")
 	out.Write(callerSrc[off(call.End()):])
+	return out.Bytes(), true
+}
+
+
+// condToBody: call lies in the condition of a for statement; the file with that test moved into the body.
+func condToBody(np *npkg, file int, call *ast.CallExpr, src []byte) ([]byte, bool) {
+	var loop *ast.ForStmt
+	ast.Inspect(np.files[file], func(n ast.Node) bool {
+		if f, ok := n.(*ast.ForStmt); ok && f.Cond != nil && f.Cond.Pos() <= call.Pos() && call.End() <= f.Cond.End() {
+			loop = f
+		}
+		return true
+	})
+	if loop == nil {
+		return nil, false
+	}
+	off := func(p token.Pos) int { return np.fset.Position(p).Offset }
+	cl, ch := off(loop.Cond.Pos()), off(loop.Cond.End())
+	cond := string(src[cl:ch])
+	body := off(loop.Body.Lbrace) + 1
+	var out bytes.Buffer
+	out.Write(src[:cl])
+	if loop.Init == nil && loop.Post == nil {
+		// `for cond {` -> `for {`
+	} else if loop.Init == nil {
+		out.WriteString(" ") // `for ; cond; post {` keeps its semicolons
+	}
+	out.Write(src[ch:body])
+	out.WriteString("\nif !(" + cond + ") {\nbreak\n}\n")
+	out.Write(src[body:])
 	return out.Bytes(), true
 }
